@@ -7,11 +7,11 @@ import json, subprocess
 CHECKS = {
  "C01": ("exploration",
   "runtime monitoring: convergence oracle over generated multi-replica push/pull schedules on real repositories",
-  "Real on-disk replicas are driven through git-bug's own API along a catalogue of fork shapes and seeded random schedules, synchronised to quiescence, and a monitor compares ordered operation ids and compiled snapshots of every bug pairwise across replicas (op-id sets established by an independent git reader).",
+  "Real on-disk replicas are driven through git-bug's own API along a catalogue of fork shapes and seeded random schedules, synchronised to quiescence, and a monitor compares ordered operation ids and compiled snapshots of every bug pairwise across replicas (op-id sets established by an independent git reader). The same oracle runs on cache-level sessions: two long-lived RepoCache instances sharing a remote (edits through BugCache, Fetch/Pull/MergeAll/Push, pulls into loaded bugs, eviction, reopen) must serve the same bugs at quiescence.",
   "Held on the executed schedules only; trusts the harness's gitraw reader and comparators."),
  "C02": ("exploration",
   "runtime monitoring: three-snapshot (before fetch / after fetch / after merge) online monitor around every pull",
-  "Every pull executed in the generated worlds is bracketed by snapshots of local and remote-tracking refs; the monitor checks no-loss, containment of the remote version, presence of remote-only entities, the status table against ref-level facts and that the returned entity equals a fresh read.",
+  "Every pull executed in the generated worlds is bracketed by snapshots of local and remote-tracking refs; the monitor checks no-loss, containment of the remote version, presence of remote-only entities, the status table against ref-level facts and that the returned entity equals a fresh read. At cache level (long-lived RepoCache sessions incl. Fetch-then-Pull, pulls into loaded bugs and with staged operations) every returned pull is checked against the remote-tracking refs in the git data and in what the cache serves, and later edits must build on the merged head.",
   "Held on the executed pulls only; remote data is valid by construction (produced by git-bug's API)."),
  "C03": ("exploration",
   "runtime monitoring: order reference model over independently decoded commit DAGs, on produced and hand-crafted histories",
@@ -28,7 +28,7 @@ CHECKS = {
  "C08": ("exploration",
   "runtime monitoring: key-validity reference model vs observed accept/refuse of crafted (identity history, commit, signing mode) pairs in child processes",
   "Identity histories that add, remove and rotate keys at steered logical times are crossed with bug commits at every logical time, written by git-bug itself or crafted (right key, second key, removed key, future key, stranger, unsigned, altered tree/time; create, append and merge commits); a second replica holding only public keys reads and merges them; verdicts are compared with a model that evaluates keys in force at T and verifies the signature over the raw commit.",
-  "The OpenPGP verification primitive is shared with git-bug; RSA keys from a per-run pool."),
+  "The OpenPGP verification primitive is shared with git-bug; RSA keys from a per-run pool. Added: multi-step identity edit timelines (Mutate/SetMetadata/Commit with the clock moving in between; commits exactly at a key change are not judged) and sessions of one long-lived RepoCache pulling key rotations, compared with a shadow replica and a fresh cache."),
  "C09": ("exploration",
   "runtime monitoring: identity chain-merge reference model over (prefix, local suffix, remote suffix), field validation cases and crafted remote versions, in child processes",
   "All (p,a,b) in {1..3}x{0..3}x{0..3} are produced by mutating and syncing one identity on two replicas (entity API and cache API) among bystander identities placed before and after it in ref order; statuses, version chains (independent reader), refs and returned entities are compared with the fast-forward-only model; invalid field values must be refused by Commit, crafted remote versions with decreasing/dropped clocks, no name and login, unsafe characters must be reported invalid with the local untouched.",
@@ -36,23 +36,23 @@ CHECKS = {
  "C10": ("exploration",
   "runtime monitoring: reference interpreter of bug operations vs Compile()/BugCache.Snapshot() on all short and many long random operation sequences",
   "All operation sequences of length <=3 (thorough <=4) over a 13-symbol alphabet plus long random sequences are compiled and compared with an independent reference interpreter written from the property statement; compiled twice; driven incrementally through BugCache on a real repository with a comparison after every operation, after commit and after cache reopen against a from-scratch compilation.",
-  "Where the statement is silent (files of a never-edited create comment, actors of ineffective operations, timeline entries of ineffective changes) every behaviour is accepted; bounded part is exhaustive for the alphabet."),
+  "Where the statement is silent (files of a never-edited create comment, actors of metadata/no-op operations, timeline entries of ineffective changes) every behaviour is accepted; an author all of whose operations are edits that change nothing must not be listed as actor; bounded part is exhaustive for the alphabet."),
  "C12": ("exploration",
   "runtime monitoring: parser fuzz under recover, render/parse round trip against the documented grammar, reference query evaluator over generated bug populations",
   "Random strings never panic query.Parse; structured queries rendered per doc/queries.md parse back to the same structure and malformed classes are rejected; generated queries are evaluated through RepoCache on populations built from two replicas (Lamport ties) and compared with a reference evaluator over resolved snapshots: exact set, each once, order by requested key and direction.",
-  "Ties and default order unconstrained; full-text asserted on planted marker tokens only."),
+  "Ties and default order unconstrained; full-text asserted on planted marker tokens only. Added: a three-valued reference reader of query text written from doc/queries.md (well-formed / malformed / undetermined) judging fuzz strings, and quoted values holding the lexer's own syntax characters in every free-valued position, also in the evaluated populations."),
  "C13": ("exploration",
   "runtime monitoring: prefix-resolution reference model over populations with engineered shared id prefixes, every prefix length of every id",
-  "Shared id prefixes are engineered by re-rolling operation nonces; every prefix length 0..64 of every bug, identity and combined comment id plus perturbations is resolved through ResolvePrefix, ResolveExcerptPrefix, ResolveComment and select.Resolve and compared with the model (unique / exactly the matching ids / not found); CombineIds/SeparateIds checked on 10k random pairs x 65 lengths.",
+  "Shared id prefixes are engineered by re-rolling operation nonces; every prefix length 0..64 of every bug, identity and combined comment id plus perturbations is resolved through ResolvePrefix, ResolveExcerptPrefix, ResolveComment and select.Resolve and compared with the model (unique / exactly the matching ids / not found); CombineIds/SeparateIds checked on 10k random pairs x 65 lengths. Every resolution query is asked again in five cache load states (all loaded, reopened from disk, two complementary half-loaded states, small LRU with churn) and the answers are compared with the model and with each other.",
   "Populations up to ~120 bugs; engineered collisions up to 5 hex characters."),
  "C14": ("exploration",
   "runtime monitoring: before/after frame-condition monitor (refs via independent reader and stock git, config multiset, .git/git-bug listing, cache answers, index hits) around removals through entity API, cache API and CLI",
-  "Repositories with 0..3 remotes (every holding subset), other entities with engineered shared prefixes and protected host refs/config; after a removal the symmetric difference must be exactly the entity's refs, excerpt and index document; the entity must stay unfindable across second removal, reopen, rebuild and merge without fetch; wipe is judged by its stated end state.",
+  "Repositories with 0..3 remotes (every holding subset), other entities with engineered shared prefixes and protected host refs/config; after a removal the symmetric difference must be exactly the entity's refs, excerpt and index document; the entity must stay unfindable across second removal, reopen, rebuild and merge without fetch; wipe is judged by its stated end state. Victims are removed in the states local+remote-tracking, fetched-but-unmerged, removed-then-refetched and removed-then-repulled, and with unusual but valid remote names (slashes, nested prefixes, namespace words, dots and dashes).",
   "Only the earliest failing stage of a case is reported."),
  "C15": ("exploration",
   "runtime monitoring: full repository manifest / refs / status / config snapshots before and after every action of mixed CLI+library sessions on a stock-git host repository; git fsck --strict, clone, fetch, gc as oracles",
   "A host repository built with stock git (branches, tags, stash, dirty tree, hostile config, look-alike refs) goes through sessions of 15..45 CLI and library actions; after every action the diff of files, refs, HEAD, index, work tree and config keys must stay inside git-bug's allow-list; at the end fsck --strict on all repositories, stock clone/fetch/push to a fsckObjects server and gc must succeed and every bug must read back.",
-  "Config compared as key/value multiset (go-git drops comments). Only the GitLab bridge is configured (against a local stub)."),
+  "Config compared as key/value multiset (go-git drops comments). Only the GitLab bridge is configured (against a local stub). Added: sessions of one long-lived repository handle (GoGitRepo or RepoCache, 30-60 actions) interleaved with a foreign actor (stock git config/commit/branch/tag/gc/prune/repack/pack-refs, a second git-bug process, a peer pushing) whose intended changes are tracked as expected foreign state; fsck after every action."),
  "C16": ("fault_enumeration",
   "runtime monitoring with fault injection: the real GitLab importer against a simulated GitLab API, per-request-identity fault enumeration, dump-comparison oracles",
   "A simulated GitLab (issues, notes incl. edits and system notes, label/state events, users, pagination, updated_after) is the ground truth; rounds import / re-import / grow / import / re-import from zero are compared op by op (idempotence, exactly the new events, incremental = one-shot, ground truth, Validate); for each request identity of a round one failure (403/404/500/drop/truncated body) is injected: an error-relaying run must not advance the cursor and a following clean run must equal a never-failed import.",
@@ -60,7 +60,7 @@ CHECKS = {
  "C19": ("fault_enumeration",
   "runtime monitoring: real git-bug processes on one repository under kill/contend schedules, event log checked offline by a one-slot lock reference model",
   "Holder (webui) and contender processes are spawned, signalled (SIGINT/SIGTERM/SIGKILL at build or ready, steered by hook delays) and reaped along generated schedules incl. failing commands, torn lock file and the check/create window; spawn/ready/attempt/signal/exit/lock-content events are checked by the lock model: no two holders, refusals name the holder and change nothing, opens succeed on a free cache, exits leave no lock, a live holder's lock survives.",
-  "Readiness is proven from output lines and socket ownership in /proc, exits from Wait(); no timing oracle."),
+  "Readiness is proven from output lines and socket ownership in /proc, exits from Wait(); no timing oracle. Added: a live opener parked between creating the lock file and writing its pid (hook cache.lock.created + SIGSTOP confirmed in /proc), and holder/opener under different unprivileged uids (skipped and recorded when the harness is not root)."),
  "C06": ("fault_enumeration",
   "runtime monitoring with fault injection: self-SIGKILL before every mutating storage call (decorator), strace SIGKILL at every traced syscall, torn clock files; fresh-process state oracle",
   "For 15 write-path scenarios a dry run records the K mutating storage calls; every prefix is produced by killing the child process immediately before call k (exhaustive per scenario); thorough additionally kills at every mutating syscall position under strace and both tiers tear every clock file. A fresh process re-opens the repository with the clock loader, reads all entities and clocks; the monitor checks old-or-new per entity, clocks against stored times, and that repeating the action completes it.",
@@ -76,7 +76,7 @@ CHECKS = {
  "C17": ("exploration",
   "runtime monitoring: before/after repository snapshots around every generated GraphQL mutation / upload request, mutation list from schema introspection",
   "An in-process handler assembled like the web UI serves a real repository; every mutation field found by introspection is sent with generated valid and invalid arguments with and without an authenticated user; the monitor compares refs, object files, stored operations (independent reader) and cache answers before and after, and the response with the modelled effect.",
-  "Modelled mutation table covers the 9 mutations of the pinned schema; unmodelled ones get the no-user check only. Dirty text inputs are only checked for kind/author, not payload equality."),
+  "Modelled mutation table covers the 9 mutations of the pinned schema; unmodelled ones get the no-user check only. Dirty text inputs are only checked for kind/author, not payload equality. Added: aftermath cases (a refused/invalid request with degenerate prefixes, then probes that load bugs not in memory and a valid mutation on the shared handler); a hang is a violation only when two goroutine dumps show goroutines parked on git-bug locks and nothing runnable, otherwise inconclusive."),
  "C18": ("exploration",
   "runtime monitoring: stress workloads with client-boundary history recording; offline exactly-once/no-phantom/chain checker, linearizability check (exact decider + porcupine), Go race detector, goroutine-dump deadlock classifier, cache-vs-rebuild comparator",
   "2..16 goroutines run generated mixes of cache calls on shared and private bugs in a child process (varying GOMAXPROCS, cache size, loaded/unloaded start, yield/delay injection at hook points between critical sections); every call is recorded at the client boundary; after the run an independent reader checks that every acknowledged operation is stored exactly once in a valid single chain, the per-bug append/read history is linearizable, the cache agrees with a rebuild; crashes and deadlocks are classified from the child's death / goroutine dump; a race build of the same workload reports data races by signature family.",
